@@ -50,6 +50,104 @@ class SA(SC.Backend):
 BK = SA()
 
 
+# ---- two mapped classes with the SAME class name (separate registries, different tables): nothing may be keyed by the bare class name
+_TWIN = None
+
+
+def twin_model(cols):
+    """a second declarative class called exactly like the harness model of `cols`, in its own registry, over its own table that holds
+    every second row with id + 1000"""
+    global _TWIN
+    if _TWIN is None:
+        from sqlalchemy.orm import declarative_base
+        M, rows = sa_h.scalar_model(cols)
+        Base2 = declarative_base()
+        attrs = {"__tablename__": "twin_" + M.__tablename__, "id": sa.Column(sa.Integer, primary_key=True)}
+        for c in M.__table__.columns:
+            if c.name != "id":
+                attrs[c.name] = sa.Column(c.type.__class__)
+        Tw = type(M.__name__, (Base2,), attrs)
+        Tw.__table__.create(sa_h.engine())
+        kept = [r for r in rows if r["id"] % 2 == 0]
+        with Session(sa_h.engine()) as ses:
+            for r in kept:
+                d = r["d"].replace(tzinfo=None) if r["d"] is not None else None
+                ses.add(Tw(id=r["id"] + 1000, n=r["n"], m=r["m"], x=r["x"], s=r["s"], u=r["u"], b=r["b"], d=d))
+            ses.commit()
+        _TWIN = (Tw, {r["id"] for r in kept})
+    return _TWIN
+
+
+def same_named_models_layer(ctx):
+    from odata_query.sqlalchemy import apply_odata_core, apply_odata_query
+    n_, s_ = typed.F("n"), typed.F("s")
+    cols = ("n", "s")
+    terms = [T.binop("Gt", n_, T.Int(1)), T.binop("Eq", s_, T.Str("a")), T.binop("Or", T.binop("In", n_, T.lst(T.Int(1), T.Int(2))), T.binop("NotEq", s_, T.NULL)),
+             T.unop("Not", T.binop("LtE", n_, T.Int(0))), T.call("contains", s_, T.Str("a")), T.binop("Eq", T.call("length", s_), n_)]
+    M, _ = sa_h.scalar_model(cols)
+    Tw, kept = twin_model(cols)
+    ses = session()
+    from vt.refprint import to_odata
+    count = 0
+    for order in (("own", "twin"), ("twin", "own"), ("own", "twin", "own")):
+        for term in terms:
+            text = to_odata(term)
+            true_ids, undef, _n = SC.expected_ids(term, SC.colkey(cols) if hasattr(SC, "colkey") else cols)
+            if undef:
+                continue
+            for which in order:
+                model = M if which == "own" else Tw
+                want = true_ids if which == "own" else {i + 1000 for i in true_ids if i in kept}
+                for variant in ("select", "query", "core"):
+                    count += 1
+                    ctx.count("executions")
+                    ctx.count("transitions")
+                    try:
+                        if variant == "select":
+                            got = set(r.id for r in ses.execute(apply_odata_query(sa.select(model), text)).scalars())
+                        elif variant == "query":
+                            got = set(r.id for r in apply_odata_query(ses.query(model), text).all())
+                        else:
+                            got = set(r.id for r in ses.execute(apply_odata_core(sa.select(model.__table__), text)))
+                    except Exception as e:  # noqa
+                        ses.rollback()
+                        got = ("EXC", type(e).__name__, str(e)[:160].replace("\n", " "))
+                    if got != want:
+                        ctx.violation("same-named-models:%s:%s" % (variant, which), {"layer": "same-named-models", "filter": text, "variant": variant, "model": which, "order": list(order),
+                                                                                    "expected": sorted(want)[:20], "observed": sorted(got)[:20] if isinstance(got, set) else list(got)})
+                    else:
+                        ctx.outcome(("same-named", variant, which))
+    return count
+
+
+# ---- `add` between strings: concatenation, which is NOT commutative (the library's tests pin 'donut' add 'tello')
+def string_add_terms():
+    s_, u_ = typed.F("s"), typed.F("u")
+    E = [s_, u_, T.Str("x"), T.Str("ab"), T.Str("")]
+    out = []
+    for e1 in E:
+        for e2 in E:
+            cat = T.binop("Add", e1, e2)
+            out += [T.binop("Eq", cat, s_), T.binop("Eq", T.Str("xab"), cat), T.binop("NotEq", cat, u_), T.call("startswith", cat, T.Str("x")),
+                    T.binop("Eq", T.call("length", cat), T.Int(2))]
+            for e3 in E[:3]:
+                out += [T.binop("Eq", T.binop("Add", cat, e3), s_), T.binop("Eq", T.binop("Add", e3, cat), s_)]
+    seen, uniq = set(), []
+    for t in out:
+        if t not in seen and typed.fields_of(t):
+            seen.add(t)
+            uniq.append(t)
+    return uniq
+
+
+def _string_add_unit(terms):
+    SC.init_now()
+    acc = Acc()
+    for t in terms:
+        SC.check_term_generic(acc, BK, t, kwcase=True)
+    return acc
+
+
 def run(ctx):
     SC.init_now()
     n = SC.generic_layer(ctx, BK, "full", 0, kwcase=True) + SC.generic_layer(ctx, BK, "full", 1, kwcase=True)
@@ -79,6 +177,12 @@ def run(ctx):
     ctx.layer("reverse-order-pass", k=1, filters=nr, exhaustive=True, note="same filters, opposite translation history per worker")
     ns = SC.generic_strings(ctx, BK, 2)
     ctx.layer("string-literals", strings=ns, positions=len(SC.string_position_terms(T.Str("x"), BK.cap)), exhaustive=True)
+    sat = string_add_terms()
+    ctx.pmap(_string_add_unit, [sat[i::16] for i in range(16)])
+    ctx.layer("string-add", filters=len(sat), exhaustive=True, note="concatenation through `add`: every ordered pair of {field, field, literal, literal, empty literal}, nested on either side")
+    nsn = same_named_models_layer(ctx)
+    ctx.layer("same-named-models", translations=nsn, orders=3, exhaustive=True,
+              note="a second mapped class with the same class name over another table, filtered alternately with the first: each gets its own rows")
     ctx.extra["entry_styles_disagree"] = int(ctx.counts["entry_styles_disagree"])
 
 
@@ -87,6 +191,12 @@ def _untuple(x):
 
 
 def replay(ctx, case):
+    if case.get("layer") == "same-named-models":
+        acc = Acc()
+        SC.init_now()
+        same_named_models_layer(acc)
+        mine = [v for v in acc.violations if v["case"]["filter"] == case["filter"] and v["case"]["variant"] == case["variant"] and v["case"]["model"] == case["model"]]
+        return {"filter": case["filter"], "violations": mine, "ok": not mine}
     SC.init_now()
     term = _untuple(case["term"])
     from vt.dbs.domain import colkey
